@@ -16,6 +16,9 @@ CLAIMED = {
  "C05": ("SSA path tables (default error encoder closure, status table, constructors), struct-literal field fidelity, stale-flag lint, template parse-tree rules (fallback arms, range-element rule, header constant agreement)",
          "Static necessary conditions only: one well-ordered response per path of the default error encoder, exhaustive default status table, fault wrapping of non-service errors, constructor flag triples and field fidelity, standard names of decoding/validation errors, fallback of undeclared errors in the generated encoder, no stale flag in the error→response resolution, no element confusion in template range bodies. Does not decide name-based dispatch end to end for arbitrary designs.",
          "DESIGN.md §3 C05"),
+ "C06": ("abstract template expansion of the endpoint template for every requirement shape, parsed with go/parser and interpreted over the single predicate err==nil against the OR-of-ANDs semantics; edge-dominance facts on MethodExpr.Finalize; SSA path table of the location inference; sibling and slice-reuse lints",
+         "Static necessary conditions only: any-requirement/all-schemes gate for all outcome vectors of 24 requirement shapes, own scheme literal and credential per callback, inheritance order (NoSecurity, method, service, API), credential location table, prefix stripping present, identical scope validators, no shared scheme slices. Does not decide arbitrary scheme combinations at run time nor that credential strings arrive unmodified.",
+         "DESIGN.md §3 C06"),
  "C07": ("callee/field identity of the route source, verb TABLE (DSL constructors vs builder switch vs document slots), CONSUMES over HTTPEndpointExpr via reachability-scoped field reads, walker/collection agreement lint, memo-key / stale-flag / required-key lints",
          "Static necessary conditions only: server and both documents share FullPaths/Method; every mountable verb has a case where the format has a slot; every request location the server reads is read by the builders; required flags and `in` literals are taken from the collection being walked; same has-body predicate; base path decided per route; required flags propagated under the key they are looked up with. Does not decide validity against the OpenAPI schemas nor JSON≡YAML.",
          "DESIGN.md §3 C07"),
